@@ -2,6 +2,7 @@ package props
 
 import (
 	"bufio"
+	"bytes"
 	"context"
 	"encoding/json"
 	"fmt"
@@ -49,7 +50,7 @@ var c07Items = []string{
 	"raw-bytes", "non-json", "json-scalar", "wrong-kind-request", "wrong-kind-notification", "unknown-id-response",
 	"id-object", "id-float", "id-string-for-int", "id-null", "no-jsonrpc", "result-and-error", "empty-object",
 	"blank-lines", "comment", "unknown-event-type", "giant-64k-minus", "giant-64k-plus", "giant-1m", "second-endpoint",
-	"truncated-json", "nested-deep", "bom", "crlf", "answer-x3",
+	"truncated-json", "nested-deep", "bom", "crlf", "answer-x3", "answer-pretty",
 }
 
 func c07JSON(item string) string {
@@ -225,6 +226,9 @@ func runC07(c *Ctx) {
 								for i := 0; i < 3; i++ {
 									fmt.Fprintf(w, "id: d%d\ndata: %s\n\n", i, ans)
 								}
+							} else if it == "answer-pretty" {
+								// the answer spread over several data: lines (one SSE event)
+								fmt.Fprintf(w, "id: p1\ndata: %s\n\n", strings.ReplaceAll(prettyJSON(ans), "\n", "\ndata: "))
 							} else {
 								io.WriteString(w, c07SSE(it))
 							}
@@ -332,6 +336,8 @@ func runC07(c *Ctx) {
 						for i := 0; i < 3; i++ {
 							fmt.Fprintf(sw, "event: message\ndata: %s\n\n", a)
 						}
+					} else if it == "answer-pretty" {
+						fmt.Fprintf(sw, "event: message\ndata: %s\n\n", strings.ReplaceAll(prettyJSON(mustJSON(answerFor(id, method, params))), "\n", "\ndata: "))
 					} else {
 						io.WriteString(sw, c07SSE(it))
 					}
@@ -386,6 +392,9 @@ func runC07(c *Ctx) {
 						for i := 0; i < 3; i++ {
 							out.Write(append(append([]byte(nil), curAnswer...), '\n'))
 						}
+					} else if it == "answer-pretty" {
+						// the answer spread over several lines, and no newline after it
+						io.WriteString(out, prettyJSON(curAnswer))
 					} else if l := c07Line(it); l != "" {
 						io.WriteString(out, l)
 					}
@@ -559,4 +568,12 @@ func runC07(c *Ctx) {
 		}
 	}
 	s.Probe("c07.variant." + variant)
+}
+
+func prettyJSON(b []byte) string {
+	var buf bytes.Buffer
+	if json.Indent(&buf, b, "", "  ") != nil {
+		return string(b)
+	}
+	return buf.String()
 }
